@@ -52,6 +52,12 @@ def corpus():
          'reqs': [q('PATCH', '/a/7'), q('GET', '/a/7'), q('PATCH', '/a/7/8/abc'), q('PATCH', '/a/7/8')]},
         {'app': {'fangs': [], 'items': [R('/a/b', 1), {'mount': '/a', 'app': {'fangs': [], 'items': [R('/b', 2, ('POST',)), R('/b/c', 3)]}}, R('/a/b/c', 4, ('PUT',))]},
          'reqs': [q('GET', '/a/b'), q('POST', '/a/b'), q('GET', '/a/b/c'), q('PUT', '/a/b/c'), q('DELETE', '/a/b')]},
+        # the same two routes answer GET /abc/xyz with the param route, or with 404 once an unrelated second route exists under /abc (known finding KF-C01-dead-end);
+        # likewise a mount prefix, a node of every method's tree, shadows the param route of another method
+        {'app': {'fangs': [], 'items': [R('/abc/def', 1), R('/:p/xyz', 2)]}, 'reqs': [q('GET', '/abc/xyz'), q('GET', '/abc/def')]},
+        {'app': {'fangs': [], 'items': [R('/abc/def', 1), R('/abc/ghi', 3), R('/:p/xyz', 2)]}, 'reqs': [q('GET', '/abc/xyz'), q('GET', '/abc/ghi')]},
+        {'app': {'fangs': [], 'items': [R('/api/v1', 1), R('/api/v2', 3), R('/:p', 2)]}, 'reqs': [q('GET', '/api'), q('GET', '/apj')]},
+        {'app': {'fangs': [], 'items': [{'mount': '/api', 'app': {'fangs': [], 'items': [R('/x', 1)]}}, R('/:p', 2, ('PUT',))]}, 'reqs': [q('PUT', '/api'), q('PUT', '/apj'), q('GET', '/api/x')]},
     ]
     return [{'case': dict(c, app2=c['app'], stop=None)} for c in cases]
 
@@ -111,9 +117,14 @@ def spec_check_one(app, req, out):
         if (req['m'] == 'HEAD') == out['body']: return 'HEAD must be answered without a body, other methods with one'
     else:
         if out['status'] != 404: return f'no handler ran but status {out["status"]}'
-        # a mount point is a node of every method's tree (the mounted application's fangs must see its 404s, C04): the walk may enter it and miss there
-        if matching and greedy_literal(routes + [(p, [], None, []) for p in appgen.mount_prefixes(app)], segs) is not None:
-            return f'404 although route {matching[0][0]} matches and the statics-first walk reaches a handler'
+        if matching:
+            # the statement: the handler that runs is the one of the route whose pattern matches; 404 is for "no registered route matches".
+            # The search never goes back: once a static alternative (a route's or a mount prefix's segment, in the tree of any method: a mount point is a
+            # node of every method's tree, C04) has matched a segment, the param alternative at that position is not tried although the static branch
+            # leads nowhere.  That class is the recorded finding KF-C01-dead-end; a 404 outside it is a plain violation.
+            if greedy_literal(routes + [(p, [], None, []) for p in appgen.mount_prefixes(app)], segs) is not None:
+                return f'404 although route {matching[0][0]} matches and the statics-first walk reaches a handler'
+            return ('KF-C01-dead-end', f'404 although route {matching[0][0]} matches: a static alternative matched an earlier segment and leads nowhere, the param alternative is not tried')
     return None
 
 
@@ -128,7 +139,8 @@ def judge(case, out, m):
         return [('disagree', 'the model refuses the application at start-up, impl builds it')]
     for i, (req, o) in enumerate(zip(case['reqs'], out['reqs'])):
         bad = spec_check_one(case['app'], req, o)
-        if bad: v.append(('violation', f'req {req["m"]} {unhx(req["p"])!r}: {bad}'))
+        if isinstance(bad, tuple): v.append(('violation', f'req {req["m"]} {unhx(req["p"])!r}: {bad[1]}', bad[0]))
+        elif bad: v.append(('violation', f'req {req["m"]} {unhx(req["p"])!r}: {bad}'))
         if 'reqs2' in out:
             o2 = out['reqs2'][i]
             if (o.get('status'), o.get('handler'), o.get('params')) != (o2.get('status'), o2.get('handler'), o2.get('params')):
@@ -143,7 +155,7 @@ def judge(case, out, m):
                 sp = x.get('spec')
                 if (sp or {}).get('handler') != x.get('handler') or ((sp or {}).get('params') if sp else None) != x.get('params'):
                     v.append(('disagree', f'req {unhx(req["p"])!r}: executable model {x.get("handler")} differs from the proved spec greedyChain {sp}'))
-    return v[:6]
+    return sorted(v, key=lambda x: len(x) > 2)[:8]          # untagged violations first
 
 
 def nontrivial(case):
